@@ -390,6 +390,27 @@ def attack_builders():
     co = zlib.compressobj(6, zlib.DEFLATED, 15, 8, zlib.Z_DEFAULT_STRATEGY, b"hello")
     b.full(pa.BLOB, B1, z=co.compress(B1) + co.flush())
     add("zlib-preset-dictionary", b)
+    # ---- structured size-header lies: declared = real + d for every entry of the three fixture packs, everything else
+    # (offsets, trailer, names) consistent, so that the lie is the only thing wrong.  C git's index-pack refuses all of them.
+    fixtures = {
+        "full3": [("full", pa.BLOB, B1, None), ("full", pa.TREE, T1, None), ("full", pa.COMMIT, C1, None)],
+        "ofs2": [("full", pa.BLOB, X0, None), ("ofs", 0, pa.make_delta(X0, X1), _bid(X1)), ("ofs", 1, pa.make_delta(X1, X2), _bid(X2))],
+        "thin": [("full", pa.BLOB, B2, None), ("ref", BASE_ID, pa.make_delta(BASE, Y), _bid(Y))],
+    }
+    for fx, ents in sorted(fixtures.items()):
+        for i in range(len(ents)):
+            for dlt in (-2, -1, 1, 2):
+                b = NB()
+                offs = []
+                for j, (kind, a1, payload, nm) in enumerate(ents):
+                    decl = len(payload) + (dlt if j == i else 0)
+                    if kind == "full":
+                        offs.append(b.full(a1, payload, declared=decl))
+                    elif kind == "ofs":
+                        offs.append(b.ofs(b.pos - offs[a1], payload, declared=decl, name=nm))
+                    else:
+                        offs.append(b.ref(a1, payload, declared=decl, name=nm))
+                add("sizelie-%s-e%d%+d" % (fx, i, dlt), b, must_reject="size-header-disagrees-with-payload")
     # ---- decompression bombs: honest size header (16 MiB of NUL in ~16 KiB) and lying ones
     bomb = bytes(16 << 20)
     zb = zlib.compress(bomb, 9)
@@ -407,6 +428,19 @@ def attack_builders():
     b = NB()
     b.full(pa.BLOB, b"x", declared=100, z=big)
     add("bomb-64MiB-declared-100-bytes", b)
+    # the bound on inflation is "declared + 1 byte per call": an entry whose first 64 KiB of input (the slice / read size of both
+    # zlib readers) inflate to exactly declared + 1 bytes with nothing pending, followed by a 64 MiB bomb in the same stream
+    filler = bytes((i * 7 + 3) % 251 + 1 for i in range(65536 - 2 - 5))
+    zeros = bytes(64 << 20)
+    co = zlib.compressobj(9, zlib.DEFLATED, -15)
+    rawbomb = co.compress(zeros) + co.flush()
+    zs = b"\x78\x9c" + b"\x00" + struct.pack("<HH", len(filler), len(filler) ^ 0xFFFF) + filler + rawbomb
+    zs += struct.pack(">L", zlib.adler32(filler + zeros) & 0xFFFFFFFF)
+    if zlib.decompress(zs) != filler + zeros or len(zs) - len(rawbomb) - 4 != 65536:
+        raise RuntimeError("harness: slice-boundary bomb is not what it should be")
+    b = NB()
+    b.full(pa.BLOB, b"x", declared=len(filler) - 1, z=zs)
+    add("bomb-64MiB-behind-the-first-64KiB-slice", b)
     # a copy-amplifying delta: 64 KiB base copied 256 times = 16 MiB from a 260-byte delta, declared honestly
     base64k = bytes(range(256)) * 256
     amp = pa.size_varint(len(base64k)) + pa.size_varint(len(base64k) * 256)
@@ -459,12 +493,13 @@ def build_seeds(scratch):
                               "bounds": pa.boundaries(b.spans), "legit": 0}
     for name, b, kw in attack_builders():
         legit = kw.pop("legit", 0)
+        must_reject = kw.pop("must_reject", None)
         alias = kw.pop("alias", ())  # extra names the forged index gives to an entry: [(name, entry number)]
         data = b.finish(**kw)
         ents = b.entries()
         S["streams"]["atk:" + name] = {"data": data, "spans": b.spans, "names": [HEX(n) for n in b.names], "entries": ents,
                                        "bounds": pa.boundaries(b.spans), "legit": legit,
-                                       "alias": [(n, ents[i][1], ents[i][2]) for n, i in alias]}
+                                       "alias": [(n, ents[i][1], ents[i][2]) for n, i in alias], "must_reject": must_reject}
     _build_files(S, scratch, git, HarnessError)
     return S
 
@@ -526,12 +561,13 @@ def _build_files(S, scratch, git, HarnessError):
                 raise HarnessError("git does not know %s after index-pack of seed %s" % (n, name))
     # ---- attack pairs: the attack pack + a forged v2 index naming every entry
     for name, st in S["streams"].items():
-        if not name.startswith("atk:") or len(st["data"]) > 4096:
+        if not name.startswith("atk:") or (len(st["data"]) > 4096 and "slice" not in name):
             continue
         ents = st["entries"] + st.get("alias", [])
         bn = "pack-" + hashlib.sha1(b"".join(sorted(e[0] for e in ents))).hexdigest()
         F["pair." + name] = {"dir": {"pack/%s.pack" % bn: st["data"], "pack/%s.idx" % bn: pa.idx_v2(ents, st["data"][-20:])},
-                             "base": "pack/" + bn, "targets": {}, "names": st["names"] + [HEX(e[0]) for e in st.get("alias", [])], "spans": {}}
+                             "base": "pack/" + bn, "targets": {}, "names": st["names"] + [HEX(e[0]) for e in st.get("alias", [])], "spans": {},
+                             "must_reject": st.get("must_reject")}
     # ---- loose objects
     for kind, t, data in (("blob", pa.BLOB, B1), ("tree", pa.TREE, T1), ("commit", pa.COMMIT, C1), ("tag", pa.TAG, G1)):
         hexid = pa.obj_hex(t, data)
@@ -553,6 +589,11 @@ def _build_files(S, scratch, git, HarnessError):
         ("header-8KiB", b"blob " + b"1" * 9000 + b"\x00" + B1, B1_ID),
     ):
         F["loose.atk:" + name] = {"dir": {loose_rel(HEX(claimed)): zlib.compress(content, 6)}, "targets": {}, "name": HEX(claimed), "type": pa.BLOB}
+    for mib in (16, 64, 128):  # no NUL within the first 8 KiB of inflated data, and the stream keeps inflating
+        F["loose.atk:bomb-no-nul-%dMiB" % mib] = {"dir": {loose_rel(HEX(B1_ID)): zlib.compress(b"blob " + b"1" * (mib << 20), 9)}, "targets": {},
+                                                 "name": HEX(B1_ID), "type": pa.BLOB, "legit": 0}
+    F["loose.atk:size-header-2^40-small-body"] = {"dir": {loose_rel(HEX(B1_ID)): zlib.compress(b"blob %d\x00" % (1 << 40) + B1, 6)}, "targets": {},
+                                                 "name": HEX(B1_ID), "type": pa.BLOB, "legit": 0}
     F["loose.atk:trailing-garbage"] = {"dir": {loose_rel(HEX(B1_ID)): loose_bytes(pa.BLOB, B1) + b"GARBAGE"}, "targets": {}, "name": HEX(B1_ID), "type": pa.BLOB}
     F["loose.atk:bomb-honest-16MiB"] = {"dir": {loose_rel(HEX(_bid(bytes(16 << 20)))): bombz}, "targets": {}, "name": HEX(_bid(bytes(16 << 20))), "type": pa.BLOB,
                                         "legit": 16 << 20}
@@ -939,6 +980,21 @@ def check_packs(v, store, where, site):
         except BaseException as e:  # noqa: B036
             v.bad("installed-pack-unreadable:" + exc_class(e), "%s: reading the installed pack by name raised %s: %s" % (where, exc_class(e), str(e)[:120]), site)
             continue
+        # the same with a reader that is not dulwich's: every indexed entry, parsed from the bytes on disk as
+        # gitformat-pack says (size header == inflated length, deltas applied by the reference decoder), must
+        # hash to the name the index gives it — "every object ingested hashes to the name it is stored under"
+        try:
+            with open(p._basename + ".pack", "rb") as f:
+                pbytes = f.read()
+            with open(p._basename + ".idx", "rb") as f:
+                ibytes = f.read()
+            ext = {pa.obj_id(t, d): (t, d) for t, d in STORE_OBJECTS}
+            for n, problem in pa.resolve_all(pbytes, pa.parse_idx(ibytes), ext):
+                if problem:
+                    v.bad("installed-pack-entry:" + problem, "%s: entry %s of the installed %s, re-read from the file by the reference reader: %s" % (
+                        where, n[:12].decode(), os.path.basename(p._basename)[:17], problem), site)
+        except (OSError, ValueError, struct.error) as e:
+            v.bad("installed-pack-not-parsable-by-reference-reader:" + exc_class(e), "%s: %s" % (where, str(e)[:120]), site)
         try:
             it = {}
             for o in p.iterobjects():
@@ -984,7 +1040,7 @@ ZERO = b"0" * 40
 PUSH_REF = b"refs/heads/pushed"
 
 
-def _ingest_op(store, path, data, cut, repo=None, tip=None):
+def _ingest_op(store, path, data, cut, repo=None, tip=None, idx_entries=()):
     """Returns a callable performing the ingestion exactly the way dulwich's own callers do."""
     import hashlib as _h
 
@@ -1012,6 +1068,35 @@ def _ingest_op(store, path, data, cut, repo=None, tip=None):
                 return store.add_pack_data(len(pd), pd.iter_unpacked())
             finally:
                 pd.close()
+        return op
+    if path == "bundle.store_objects":  # Bundle.store_objects(object_store), the documented way to unbundle
+        def op():
+            from dulwich.bundle import Bundle
+
+            bd = Bundle()
+            bd.version, bd.capabilities, bd.prerequisites, bd.references = 2, {}, [], {}
+            bd.pack_data = PackData.from_file(io.BytesIO(data), _OF)
+            try:
+                return bd.store_objects(store)
+            finally:
+                _close(bd.pack_data)
+                _close(bd)
+        return op
+    if path == "unpack_objects":  # porcelain.unpack_objects(pack_path, target): pack + idx handed over by the user
+        def op():
+            from dulwich import porcelain
+            from dulwich.pack import PackData as _PD
+
+            d = os.path.join(_workdir("unp"), "in")
+            if os.path.exists(d):
+                shutil.rmtree(d)
+            os.makedirs(d)
+            pth = os.path.join(d, "incoming.pack")
+            with open(pth, "wb") as f:
+                f.write(data)
+            with open(os.path.join(d, "incoming.idx"), "wb") as f:
+                f.write(pa.idx_v2(idx_entries, data[-20:]))
+            return porcelain.unpack_objects(pth, repo.path)
         return op
     if path == "receive-pack":
         def op():
@@ -1065,7 +1150,7 @@ def run_ingest(seed, mut, variant):
     if kind == "disk":
         from dulwich.object_store import DiskObjectStore
 
-        if path == "receive-pack":
+        if path in ("receive-pack", "unpack_objects"):
             from dulwich.repo import Repo
 
             root, objdir = _mk_disk_repo()
@@ -1093,7 +1178,7 @@ def run_ingest(seed, mut, variant):
     if before["ids"] != sorted(STORE_IDS):
         raise RuntimeError("harness: the receiving store does not start with the expected objects: %r" % (before,))
     what = "%s.%s(%s%s)" % (kind, path, seed, "" if mut is None else " " + repr(tuple(mut)))
-    res = _call(v, site, _ingest_op(store, path, data, cut, repo, tip), what)
+    res = _call(v, site, _ingest_op(store, path, data, cut, repo, tip, st["entries"] + st.get("alias", [])), what)
     failed = res[0] == "exc"
     why = exc_class(res[1]) if failed else "ok"
     if path == "receive-pack" and not failed:
@@ -1105,6 +1190,9 @@ def run_ingest(seed, mut, variant):
         else:
             why = "unpack-ok"
     v.cls("%s:%s" % (site, "rejected:" + why if failed else "accepted"))
+    if not failed and mut is None and st.get("must_reject"):
+        v.bad("accepted-entry-whose-" + st["must_reject"], "%s was accepted although the pack is crafted so that its only flaw is an entry whose %s" % (
+            what, st["must_reject"].replace("-", " ")))
     res = None
     # ---- what can be seen now
     live = observe_store(store, probe)
@@ -1160,6 +1248,26 @@ def run_ingest(seed, mut, variant):
         if left:
             v.cls("%s:leftover:%s" % (site, "+".join(sorted({"tmp_pack" if "tmp_pack" in o else "pack-without-idx" if o.endswith(".pack") else
                                                               "idx-without-pack" if o.endswith(".idx") else "other" for o in left}))))
+            if failed:
+                # the left-overs of a failed ingestion are tolerated because they are never used and prune() removes them
+                def pr():
+                    ps = DiskObjectStore(objdir)
+                    try:
+                        ps.prune(grace_period=-1)
+                        return observe_store(ps, probe)
+                    finally:
+                        _close(ps)
+                r = _call(v, site + ":prune", pr, "prune() after the failed %s" % what)
+                if r[0] == "ok":
+                    again = _listing(objdir)
+                    still = [o for o in again[2] if o in left]
+                    if still:
+                        v.bad("leftover-not-removed-by-prune", "%s failed and left %r behind, which prune(grace_period=-1) does not remove" % (
+                            what, sorted({re.sub(r"tmp_pack_.*", "tmp_pack_*", re.sub(r"[0-9a-f]{40}", "<id>", o)) for o in still})))
+                    if again[0] != before_list[0] or again[1] != before_list[1] or r[1]["ids"] != before["ids"]:
+                        v.bad("prune-after-failure-changes-the-store", "%s failed; after prune() the store lists %r, pairs %r" % (what, r[1]["ids"], again[0]))
+                else:
+                    v.bad("prune-after-failure-raises:" + exc_class(r[1]), "prune() after the failed %s raised %s" % (what, exc_class(r[1])))
         for s in (fresh, store):
             try:
                 if s is not None:
@@ -1203,6 +1311,9 @@ def run_stream(seed, mut, variant):
         v.cls("%s:rejected:%s" % (site, exc_class(res[1])))
         return v.result()
     v.cls("%s:accepted" % site)
+    if mut is None and st.get("must_reject"):
+        v.bad("accepted-entry-whose-" + st["must_reject"], "%s accepted a pack crafted so that its only flaw is an entry whose %s" % (
+            what, st["must_reject"].replace("-", " ")))
     # accepted: what was taken off the wire must be a checksummed pack (self-consistent)
     taken = data[:feed.consumed]
     if len(taken) < 32 or hashlib.sha1(taken[:-20]).digest() != taken[-20:]:
@@ -1319,13 +1430,18 @@ def run_pair(seed, mut, variant):
                     r = _call(v, site, lambda: sorted(pk), "iter(Pack(%s))" % what0)
                     listed = r[1] if r[0] == "ok" else []
                     names = list(files["names"]) + [n for n in listed if n not in files["names"]][:8]
+                    refused = 0
                     for n in names:
                         r = _call(v, site, lambda: pk.get_raw(hex_to_sha(n)), "Pack(%s).get_raw(%s)" % (what0, n[:10].decode()))
+                        refused += r[0] != "ok"
                         if r[0] == "ok":
                             good = _hash_rule(v, site + ":" + dmg, "Pack(%s).get_raw" % what0, n, r[1][0], r[1][1], crafted or not STRICT_RAW_READS)
                             v.cls("%s:%s" % (site, "ok" if good else "ok-but-wrong-content"))
                         else:
                             _oc(v, site, r)
+                    if files.get("must_reject") and mut is None and not refused:
+                        v.bad("accepted-entry-whose-" + files["must_reject"], "Pack(%s).get_raw returned every entry although one entry's %s" % (
+                            what0, files["must_reject"].replace("-", " ")), site)
                 finally:
                     _close(pk)
             elif op == "iterobjects":
@@ -1337,6 +1453,9 @@ def run_pair(seed, mut, variant):
                         _close(pk)
                 r = _call(v, site, f, "Pack(%s).iterobjects()" % what0)
                 _oc(v, site, r)
+                if r[0] == "ok" and files.get("must_reject") and mut is None:
+                    v.bad("accepted-entry-whose-" + files["must_reject"], "Pack(%s).iterobjects() yielded every entry although one entry's %s" % (
+                        what0, files["must_reject"].replace("-", " ")), site)
                 if r[0] == "ok":
                     for i, t, raw in r[1]:
                         _hash_rule(v, site, "Pack(%s).iterobjects()" % what0, i, t, raw)
@@ -1350,6 +1469,9 @@ def run_pair(seed, mut, variant):
                         _close(pk)
                 r = _call(v, site, f, "Pack(%s).check()" % what0)
                 _oc(v, site, r)
+                if r[0] == "ok" and files.get("must_reject") and mut is None:
+                    v.bad("accepted-entry-whose-" + files["must_reject"], "Pack(%s).check() passed although one entry's %s" % (
+                        what0, files["must_reject"].replace("-", " ")), site)
                 if r[0] == "ok":
                     for n, (t, raw) in r[1]:
                         _hash_rule(v, site, "Pack(%s).check() passed; get_raw" % what0, n, t, raw, crafted)
